@@ -20,6 +20,13 @@ def run(ctx):
             from lib import vlib
             raise vlib.Broken("logging configuration %s: debug logging was never open during the replay (vacuous)" % mode)
         ctx.cov.setdefault("debug_steps", {})[mode] = summ.get("debug_steps", 0)
+    # value rendering: the generated signature zoo of C01 (strings, slices, structs, arrays, funcs, nil interfaces, nil
+    # pointers, variadics, multiple results) under every logging configuration
+    from checks import c01
+    chosen = c01.witnesses(ctx, 30, 300)
+    c01.zoo_run(ctx, chosen, [({"VERIF_LOG": "debug", "VERIF_QUIET": "1"}, "zoo, debug logging"),
+                              ({"VERIF_LOG": "trace", "VERIF_QUIET": "1"}, "zoo, trace logging"),
+                              ({"GOOM_DEBUG": "1", "VERIF_QUIET": "1"}, "zoo, GOOM_DEBUG=1")])
     ctx.cov["rule"] = ("the behaviours of the lifecycle family (all histories of the stub alphabet to depth 3 + random "
                        "length-12 histories with OpenDebug/CloseDebug/OpenTrace/CloseTrace interleaved by TLC) replayed under "
                        "4 logging configurations x 4 handle kinds; the oracle (required call results, image) has no logging "
